@@ -47,7 +47,8 @@ def gap_pattern(row):
 def strip_common_gap_columns(rows):
     if not rows:
         return rows
-    keep = [c for c in range(len(rows[0])) if any(r[c] != "-" for r in rows)]
+    n = min(len(r) for r in rows)
+    keep = [c for c in range(n) if any(r[c] != "-" for r in rows)]
     return ["".join(r[c] for c in keep) for r in rows]
 
 
